@@ -2441,24 +2441,31 @@ class CanMatrix(object):
             return {}
 
     def enum_attribs_to_values(self):  # type: () -> None
+        def enum_value(define, key):  # type: (Define, typing.Any) -> typing.Any
+            try:
+                return define.values[int(float(key))]
+            except (ValueError, IndexError):
+                # not an index into the enumeration: keep what the file said
+                return key
+
         for define in self.ecu_defines:
             if self.ecu_defines[define].type == "ENUM":
                 for bu in self.ecus:
                     if define in bu.attributes:
-                        bu.attributes[define] = self.ecu_defines[define].values[int(float(bu.attributes[define]))]
+                        bu.attributes[define] = enum_value(self.ecu_defines[define], bu.attributes[define])
 
         for define in self.frame_defines:
             if self.frame_defines[define].type == "ENUM":
                 for frame in self.frames:
                     if define in frame.attributes:
-                        frame.attributes[define] = self.frame_defines[define].values[int(float(frame.attributes[define]))]
+                        frame.attributes[define] = enum_value(self.frame_defines[define], frame.attributes[define])
 
         for define in self.signal_defines:
             if self.signal_defines[define].type == "ENUM":
                 for frame in self.frames:
                     for signal in frame.signals:
                         if define in signal.attributes:
-                            signal.attributes[define] = self.signal_defines[define].values[int(float(signal.attributes[define]))]
+                            signal.attributes[define] = enum_value(self.signal_defines[define], signal.attributes[define])
 
     def enum_attribs_to_keys(self):  # type: () -> None
         for define in self.ecu_defines:
